@@ -123,6 +123,25 @@ pub fn make_linked_list<'a>(vbar: bool, mut terms: Vec<Unifiable>) -> Unifiable 
 
 } // make_linked_list()
 
+/// Makes a Suiron list which holds exactly the given terms.
+///
+/// Unlike [make_linked_list()](../s_linked_list/fn.make_linked_list.html),
+/// a last term which is a list is not spliced in; it remains a single term.
+///
+/// # Arguments
+/// * vector of unifiable terms
+/// # Return
+/// [SLinkedList](../unifiable/enum.Unifiable.html#variant.SLinkedList)
+pub fn list_of_terms(terms: Vec<Unifiable>) -> Unifiable {
+    let mut list = cons_node!(Nil, Nil, 0, false);
+    let mut num = 0;
+    for term in terms.into_iter().rev() {
+        num += 1;
+        list = cons_node!(term, list, num, false);
+    }
+    return list;
+} // list_of_terms()
+
 /// Compares two characters. Checks for backslash escapes: \\
 ///
 /// If the character indexed in the vector of characters is the same as
